@@ -28,8 +28,10 @@ TList   == E.e = "List" /\ E.rc = 0 /\ Look
 (* --dry-run: nothing reaches the daemon; what is printed is what would have been sent: the events of the files, in order, *)
 (* completed with the caller's directory and umask                                                                        *)
 TDry    == E.e = "Dry" /\ E.rc = 0 /\ Look /\ E.rows = E.evs
+(* other peers open connections and keep them: nothing of the queue changes, every one of them is accepted (the table has 64 slots) *)
+TCrowd  == E.e = "Crowd" /\ Look /\ (E.n > 0 => E.open = E.n) /\ (E.n = 0 => E.open = 0)
 TInit == Init /\ l = 1
-TNext == l <= Len(Tr) /\ (TAdd \/ TCancel \/ TEdit \/ TList \/ TDry) /\ l' = l + 1
+TNext == l <= Len(Tr) /\ (TAdd \/ TCancel \/ TEdit \/ TList \/ TDry \/ TCrowd) /\ l' = l + 1
 TSpec == TInit /\ [][TNext]_tv
 Reach == TLCSet(1, IF TLCGet(1) > l THEN TLCGet(1) ELSE l)
 ASSUME TLCSet(1, 0)
